@@ -588,6 +588,37 @@ pub fn sites(tier: Tier) -> Vec<Site> {
                 }
             }));
     }
+    // every Unicode scalar value, not only the repertoire and a few outsiders: a character of no page is one '?',
+    // whatever it is (noncharacters, private use, format characters, the planes above the BMP)
+    {
+        let tt = t.clone();
+        sites.push(Site::new("any-scalar-value", 0x11_0000 * 2,
+            "every Unicode scalar value c (all 1 112 064) in the texts a c b and (a Greek letter) c c: encode, decode, compare with the text (characters of no page as '?')",
+            move |i, acc| {
+                let Some(c) = char::from_u32((i / 2) as u32) else { return };
+                if c == '^' || c == '\0' { return; }
+                // not judged, as everywhere in this check: the C1 controls (the cells CPython's tables leave undefined are
+                // filled with them by the WHATWG tables the library uses) and the private-use area (user-defined rows of
+                // the double-byte pages)
+                // (nor U+2212: Shift_JIS encoders send MINUS SIGN as the full-width hyphen-minus by design, DESIGN section 4 C10)
+                if (0x80..=0x9f).contains(&(c as u32)) || (0xe000..=0xf8ff).contains(&(c as u32)) || c == '\u{2212}' { return; }
+                let s = if i % 2 == 0 { format!("a{c}b") } else { format!("\u{3b1}{c}{c}") };
+                if (c as u32) < 0x80 || tt.union.contains(&c) { roundtrip_case(&tt, &s, i, "any-scalar-value", "L", acc); return; }
+                // outside the reference repertoire: one '?' per character - or the character itself where the library's
+                // double-byte tables are richer than the reference's (they are compared by agreement ratio, not cell by cell)
+                acc.eval();
+                let replay = json!({"site": "any-scalar-value", "index": i, "string": s});
+                match guard(|| { let e = to_lossy_bytes(&s).to_vec(); let d = to_lossy_string(&e).to_string(); (e, d) }) {
+                    Err(p) => acc.violate(i, "C10|encode|panic".into(), format!("{s:?}: {p}"), replay),
+                    Ok((e, d)) => {
+                        let q = s.replace(c, "?");
+                        if d == q { acc.class("unrepresentable->?"); acc.nontrivial(); }
+                        else if d == s { acc.class("outside-the-reference-repertoire-but-carried"); }
+                        else { acc.violate(i, "C10|roundtrip|unrepresentable-not-question-mark|state-L|home--".into(), format!("{s:?} -> {} -> {d:?} (expected {q:?} or the text itself)", hex(&e)), replay); }
+                    },
+                }
+            }));
+    }
     // LONG strings on the encode side: a unit repeated around every power of two up to 2^17 (page switches, characters
     // of no page, escaped carets, double-byte characters - "any number" of each)
     {
